@@ -42,6 +42,34 @@ class Frames:
                 if l0.get('op') == 'ref':
                     assigned[l0['name']] = assigned.get(l0['name'], 0) + 1
         self.fixed = {}
+        self.expects = {}      # what a caller should pass: parameters only ever compared with ids read from the file
+        # a parameter whose only modifications add (subtract) the offset is an api (file) id from the entry to that point
+        self.initial = {}
+        pnames = {q['name'] for q in fn.params}
+        mods = {}
+        for ev in fn.events():
+            if ev.k == 'store':
+                l0 = strip_casts(ev.store_parts()[0])
+                if l0.get('op') == 'ref' and l0.get('name') in pnames:
+                    mods.setdefault(l0['name'], []).append(ev)
+        for name, evs in mods.items():
+            kinds = set()
+            for ev in evs:
+                lhs, rhs, o = ev.store_parts()
+                kinds.add(o if (o in ('+=', '-=') and rhs is not None and self.is_off(rhs)) else 'other')
+            if kinds == {'+='}:
+                self.initial[name] = API
+            elif kinds == {'-='}:
+                self.initial[name] = FILE
+        # a parameter that is never assigned and is compared with a value read from the file is expected to be a file id
+        for b in fn.blocks.values():
+            for e in [ev.e for ev in b.events if ev.e is not None] + ([b.cond] if b.cond is not None else []):
+                for n in walk(e):
+                    if n.get('op') == 'bin' and n['o'] in ('<', '<=', '>', '>=', '==', '!='):
+                        for x, y in ((n['k'][0], n['k'][1]), (n['k'][1], n['k'][0])):
+                            x0 = strip_casts(x)
+                            if x0.get('op') == 'ref' and x0.get('rk') == 'param' and not assigned.get(x0['name']) and self.default(strip_casts(y)) == frozenset([FILE]):
+                                self.expects.setdefault(x0['name'], set()).add(FILE)
         for b in fn.blocks.values():
             for e in [ev.e for ev in b.events if ev.e is not None] + ([b.cond] if b.cond is not None else []):
                 for n in walk(e):
@@ -84,6 +112,9 @@ class Frames:
             base = strip_casts(e['k'][0]) if e.get('k') else None
             if base is not None and base.get('op') == 'member' and base.get('field') == 'header':
                 return frozenset([FILE])          # payload header of a chunk read from the file
+        if op == 'member' and e.get('field') == 'timestamp' and e.get('rec') == 'jls_index_entry_s':
+            if any(n.get('op') == 'member' and n.get('field') == 'entries' for n in walk(e)):
+                return frozenset([FILE])          # entry of a time-series index read from the file
         if op == 'member' and e.get('field') == 'sample_id' and e.get('rec') == 'jls_utc_summary_entry_s':
             if any(n.get('op') == 'member' and n.get('field') == 'entries' for n in walk(e)):
                 return frozenset([FILE])          # entry of a UTC summary payload read from the file
@@ -151,6 +182,11 @@ class Frames:
         st = dict(st)
         if ev.e is not None:
             self.check_expr(ev.e, st, ev.ln)
+        if ev.k == 'decl' and ev.e is not None and ev.e.get('op') == 'init' and ev.e.get('fields'):
+            for fname, sub in zip(ev.e['fields'], ev.e.get('k', [])):
+                f = self.frame(sub, st)
+                st['%s.%s' % (ev.name, fname)] = f if f else frozenset(['?'])
+            return st
         if ev.k in ('store', 'decl'):
             lhs, rhs, o = ev.store_parts()
             k = self.key(lhs)
@@ -183,9 +219,11 @@ class Frames:
             # a helper of the same unit that itself adds (subtracts) the offset to a parameter it never assigns
             # expects an api (file) id there
             g = self.P.functions.get(ev.callee) if (self.P is not None and ev.callee) else None
-            if g is not None and g.file == self.fn.file and g is not self.fn:
+            if g is not None and g is not self.fn:
                 if not hasattr(g, '_frames_fixed'):
-                    g._frames_fixed = Frames(g).fixed
+                    fg_ = Frames(g)
+                    g._frames_fixed = dict(fg_.expects)
+                    g._frames_fixed.update(fg_.fixed)
                 for i_, a in enumerate(ev.args):
                     if i_ >= len(g.params):
                         break
@@ -195,7 +233,7 @@ class Frames:
                     fa = self.frame(a, st)
                     if fa and not (fa & want):
                         self.report(ev.where(), '%s() treats its parameter %s as a%s id (it %s the offset), but %s is a%s id here' %
-                                    (g.name, g.params[i_]['name'], 'n api' if API in want else ' file', 'adds' if API in want else 'subtracts',
+                                    (g.name, g.params[i_]['name'], 'n api' if API in want else ' file', 'adds' if API in want else 'subtracts it or compares the value with ids read from the file; it never adds',
                                      show(a)[:40], 'n api' if API in fa else ' file'), ('arg', show(ev.e)))
             # out-parameters: &x passed to a callee is no longer known
             for a in ev.args:
@@ -210,7 +248,7 @@ class Frames:
 
     def run(self):
         fn = self.fn
-        IN = {fn.entry.id: {}}
+        IN = {fn.entry.id: {k_: frozenset([v_]) for k_, v_ in self.initial.items()}}
         work = [fn.entry]
         visits = {}
         while work:
